@@ -137,7 +137,7 @@ func (c *vfcClient) req(proc uint32, args []byte, meta M, roles map[string][]str
 	for k, v := range map[string]interface{}{"h": []string{}, "name": "", "ncls": "none", "h2": []string{}, "name2": "", "ncls2": "none",
 		"how": "", "verf": "", "hasmode": false, "mode": 0, "modehi": false, "hassize": false, "size": 0, "hasuid": false, "uid": 0, "hasgid": false, "gid": 0,
 		"off": 0, "offc": "small", "cnt": 0, "cntbig": false, "stable": 0, "data": []int{}, "euid": 0, "egid": 0, "tgt": "", "tgtc": []string{}, "tgtok": true, "mask": 0, "hknown": true,
-		"rocheck": false, "faulty": false, "mangle": "ok", "acc_mod": false, "acc_ext": false, "acc_del": false} {
+		"rocheck": false, "faulty": false, "nsfault": false, "mangle": "ok", "acc_mod": false, "acc_ext": false, "acc_del": false} {
 		line[k] = v
 	}
 	for k, v := range meta {
